@@ -296,6 +296,14 @@ func c01Tombstones(p *Prog, r *Report) {
 		f := p.FlatOf(fi)
 		sites := f.CallSites(kCFGet)
 		if len(sites) == 0 {
+			// the lookup may sit in a helper that answers with a flag (exists(id) (bool, error)): splice it in and
+			// follow the flag
+			if fx := p.FlatInl(fi).SplitBools(); len(fx.CallSites(kCFGet)) > 0 {
+				f = fx
+				sites = f.CallSites(kCFGet)
+			}
+		}
+		if len(sites) == 0 {
 			// the test may live in an iterator of the package that GetKeys ranges over: it yields a key only after
 			// a successful lookup, GetKeys lists what it yields and handles the error it yields
 			for _, rs := range rangeLoops(fi.Decl.Body) {
@@ -387,8 +395,15 @@ func c01Tombstones(p *Prog, r *Report) {
 		for _, s := range sites {
 			ok, _, st := f.GatedBy(s, appends)
 			pre := true
+			// (the copies of one call that the flag-splitting makes count as one site)
+			twins := []int{}
+			for _, s2 := range sites {
+				if s2.Call == s.Call {
+					twins = append(twins, s2.Node)
+				}
+			}
 			for _, a := range appends {
-				if !f.MustPrecede(setOf([]int{s.Node}), a) {
+				if !f.MustPrecede(setOf(twins), a) {
 					pre = false
 				}
 			}
